@@ -3,6 +3,11 @@
 use simcore::Ctx;
 
 fn main() {
+    if std::env::args().any(|a| a == "--make-golden") {
+        // one-off: write the golden data of the current (reference) build to stdout
+        println!("{}", serde_json::to_string(&triesim::golden::make()).unwrap());
+        return;
+    }
     let mut ctx = Ctx::from_args("triesim");
     let prop = ctx.property.clone();
     let info = triesim::run_trie_batches(&mut ctx, &prop);
